@@ -13,7 +13,7 @@ def verdict(it, cert):
 
 
 def run(out, explore=0):
-    L.standard_run(out, "C02", explore or 150, want=("c05", "c02"), verdict=verdict)
+    L.standard_run(out, "C02", explore or 150, want=("c05", "c02"), verdict=verdict, extra_pools=(("X", 40),))
 
 
 def replay(out, rp):
